@@ -216,19 +216,19 @@ def make_wrappers(ptn, tr, alg, dt_ref=None):
 
     def mk_site(orig):
         def w(Lb, Rb, W, A, dt, numiter):
-            observe('site', Lb, Rb, W, A, dt, sys._getframe(1).f_locals)
+            observe('site', Lb, Rb, W, A, dt, wrap.caller_locals())
             return orig(Lb, Rb, W, A, dt, numiter)
         return w
 
     def mk_bond(orig):
         def w(Lb, Rb, C, dt, numiter):
-            observe('bond', Lb, Rb, None, C, dt, sys._getframe(1).f_locals)
+            observe('bond', Lb, Rb, None, C, dt, wrap.caller_locals())
             return orig(Lb, Rb, C, dt, numiter)
         return w
 
     def mk_min(orig):
         def w(Lb, Rb, W, Astart, numiter):
-            loc = sys._getframe(1).f_locals
+            loc = wrap.caller_locals()
             en, Aopt = orig(Lb, Rb, W, Astart, numiter)
             try:
                 HA = ptn.apply_local_hamiltonian(Lb, Rb, W, Astart)
@@ -265,7 +265,7 @@ def record_tdvp(ptn, H, psi, alg, dt, nsteps, numiter, tol_split=0.0, tr=None, s
         fn = ptn.integrate_local_singlesite if alg == 'tdvp1' else ptn.integrate_local_twosite
         with warnings.catch_warnings():
             warnings.simplefilter('ignore')
-            with wrap.patched(*make_wrappers(ptn, tr, alg, dt_ref=dt)) as missing:
+            with wrap.patched(*make_wrappers(ptn, tr, alg, dt_ref=dt), trace=tr) as missing:
                 if alg == 'tdvp1':
                     ret = fn(H, psi, sign * dt, nsteps, numiter_lanczos=numiter)
                 else:
@@ -317,7 +317,7 @@ def record_dmrg(ptn, H, psi, alg, nsweeps, numiter, tol_split=0.0, tr=None, comp
         qtot = int(psi.qD[-1][0] - psi.qD[0][0])
         with warnings.catch_warnings():
             warnings.simplefilter('ignore')
-            with wrap.patched(*make_wrappers(ptn, tr, alg)) as missing:
+            with wrap.patched(*make_wrappers(ptn, tr, alg), trace=tr) as missing:
                 if alg == 'dmrg1':
                     en = ptn.calculate_ground_state_local_singlesite(H, psi, nsweeps, numiter_lanczos=numiter)
                 else:
